@@ -32,7 +32,8 @@ No(m)  == [m |-> m, ok |-> FALSE]
 
 NewFile == [pr |-> {}, rules |-> <<Allow>>, pinit |-> FALSE]   \* pinit: the principals table has been allocated
 NewRoot(p) == [pr |-> {p}, root |-> [ids |-> {p}, thr |-> 1], tgt |-> [on |-> FALSE, ids |-> {}, thr |-> 0],
-               globals |-> <<>>, hooks |-> [pre |-> <<>>, push |-> <<>>], hinit |-> FALSE]
+               globals |-> <<>>, hooks |-> [pre |-> <<>>, push |-> <<>>], hinit |-> FALSE,
+               multi |-> [ctl |-> FALSE, cr |-> <<>>, nr |-> <<>>]]     \* controller flag, controller / network repositories
 
 (***************************************************************************)
 (* Rule file edits                                                         *)
@@ -122,6 +123,12 @@ ApplyR(r, e, Dev) ==
       [] e.op = "RemoveHook" ->
            IF ~r.hinit THEN No(r) ELSE
            Ok([r EXCEPT !.hooks = [s \in {"pre", "push"} |-> IF HasName(e.stages, s) THEN SelectSeq(r.hooks[s], LAMBDA n : n # e.name) ELSE r.hooks[s]]])
+      [] e.op = "EnableController"  -> Ok([r EXCEPT !.multi.ctl = TRUE])
+      [] e.op = "DisableController" -> Ok([r EXCEPT !.multi.ctl = FALSE])
+      [] e.op = "AddControllerRepository" ->
+           IF HasName(r.multi.cr, e.name) THEN No(r) ELSE Ok([r EXCEPT !.multi.cr = Append(@, e.name)])
+      [] e.op = "AddNetworkRepository" ->
+           IF ~r.multi.ctl \/ HasName(r.multi.nr, e.name) THEN No(r) ELSE Ok([r EXCEPT !.multi.nr = Append(@, e.name)])
 
 NoDup(seq) == \A i, j \in DOMAIN seq : i # j => seq[i] # seq[j]
 WFRoot(r) ==
@@ -130,10 +137,13 @@ WFRoot(r) ==
     /\ \A i, j \in DOMAIN r.globals : i # j => r.globals[i].name # r.globals[j].name
     /\ \A i \in DOMAIN r.globals : r.globals[i].kind = "threshold" => r.globals[i].thr >= 1
     /\ NoDup(r.hooks.pre) /\ NoDup(r.hooks.push)
+    /\ NoDup(r.multi.cr) /\ NoDup(r.multi.nr)
 
 ViewF(f) == [pr |-> f.pr, rules |-> f.rules]
 \* what a query can observe of a root (hinit is allocation state, not observable)
-ViewR(r) == [pr |-> r.pr, root |-> r.root, tgt |-> r.tgt, globals |-> r.globals, hooks |-> r.hooks]
+\* (the network repositories of a root that is not a controller are kept but not shown)
+ViewR(r) == [pr |-> r.pr, root |-> r.root, tgt |-> r.tgt, globals |-> r.globals, hooks |-> r.hooks,
+             multi |-> [r.multi EXCEPT !.nr = IF r.multi.ctl THEN @ ELSE <<>>]]
 
 \* replay of a recorded edit sequence: sequence of [m, ok] after each edit
 RECURSIVE RunF(_, _, _, _)
